@@ -61,7 +61,14 @@ for c in sorted(glob.glob(os.path.join(R, "claims", "*.json"))):
     t_built += f"* theorems in `Props/{pid}.lean` ({len(thms)}): " + ", ".join(f"`{t}`" for t in thms) + "\n"
     t_built += f"* correspondence streams: " + (", ".join(f"`{x}`" for x in streams) or "—") + "\n"
     t_built += f"* oracles on the implementation: " + (", ".join(f"`{x}`" for x in oracles) or "—") + "\n\n"
-regions = {"fixed": t_fixed, "open": t_open, "seeded": t_seed, "claims": t_claims, "asbuilt": t_built}
+t_ben = "| rewrite | property | quick check | detail when it alarmed |\n|---|---|---|---|\n"
+bp = os.path.join(R, "seeded-benign", "results.json")
+if os.path.exists(bp):
+    br = json.load(open(bp))
+    for k in sorted(br):
+        v = br[k]
+        t_ben += f"| {k} | {v['property']} | {v['outcome']} | {esc(v.get('detail',''))[:260]} |\n"
+regions = {"benign": t_ben, "fixed": t_fixed, "open": t_open, "seeded": t_seed, "claims": t_claims, "asbuilt": t_built}
 p = os.path.join(R, "DESIGN.md")
 s = open(p).read()
 for k, v in regions.items():
